@@ -599,12 +599,20 @@ def path_data_diff(obs_shape, ms):
     return pl.segs_diff(obs_shape["segs"], ms["psegs"], 1e-9)
 
 
-def reified_diff(obs_t, ms, tol=1e-9, geometry=True, stroke=True):
+def reified_diff(obs_t, ms, tol=1e-9, geometry=True, stroke=True, impl_m=None):
     """a shape parsed with reify=True against the Lean model of reify(): the shape's own numbers, its residual matrix and
     its stroke width"""
     r = ms.get("reified")
     if r is None or obs_t.get("fields") is None or ms["kind"] == "path":
         return None
+    if ms["kind"] in ("rect", "circle", "ellipse"):
+        # Rect/round-shape reify folds the matrix in only when its skew entries are EXACTLY zero. After a chain of rotations
+        # they may be zero in one evaluation order and 1e-17 in another; the absolute geometry is the same either way (theorems
+        # C03_reify_*), so the comparison of the folded numbers is skipped when the decision hangs on rounding
+        for mm in (ms["m"], impl_m or ms["m"]):
+            big = max(abs(mm[0]), abs(mm[3]), 1e-300)
+            if (mm[1] != 0 or mm[2] != 0) and abs(mm[1]) <= 1e-9 * big and abs(mm[2]) <= 1e-9 * big:
+                return None          # neither the folded numbers nor the rescaled stroke width are comparable
     scale = max([1.0] + [abs(v) for v in r["nums"] + r["m"]])
     if geometry:
         if len(obs_t["fields"]) != len(r["nums"]):
